@@ -140,4 +140,19 @@ end
 instance : Repr AStmt := ⟨fun _ _ => "<statement>"⟩
 instance : Repr ABlock := ⟨fun _ _ => "<block>"⟩
 
+/-! ### the scope tests of `preprocess()`, translated (tools/facts/sec_scope.go) -/
+
+/-- what the tests look at: are include filters configured at all; does the URL's host / text contain an include / exclude entry; does an
+exclusion regex match -/
+inductive SAtom | anyIncludeHosts | anyIncludeStrings | hostInInclude | textInInclude | hostInExclude | textInExclude | regexExcluded
+deriving DecidableEq, Repr
+
+inductive SCond
+  | atom (a : SAtom)
+  | not (c : SCond)
+  | and (a b : SCond)
+  | or (a b : SCond)
+  | unknown (src : String)
+deriving DecidableEq, Repr
+
 end Zeno
